@@ -564,12 +564,166 @@ pub fn check_c05(t: &usvg::Tree, ids_unique_in_input: bool, where_: &str, v: &mu
     }
 }
 
+// ---------------------------------------------------------------------------------------------
+// C07: written SVG is well-formed, self-contained and re-parsable
+// ---------------------------------------------------------------------------------------------
+
+pub fn write_options(k: u64) -> (usvg::WriteOptions, String) {
+    use usvg::Indent;
+    let mut rng = Rng::new(k);
+    let mut w = usvg::WriteOptions::default();
+    let prefixes: [Option<&str>; 4] = [None, Some("pre_"), Some("p&<\"'>\u{e9} "), Some("-1.")];
+    let pi = rng.below(4) as usize;
+    w.id_prefix = prefixes[pi].map(|s| s.to_string());
+    w.preserve_text = rng.chance(1, 2);
+    w.use_single_quote = rng.chance(1, 2);
+    let indents = [Indent::None, Indent::Spaces(0), Indent::Spaces(2), Indent::Spaces(4), Indent::Tabs];
+    let ii = rng.below(5) as usize;
+    let ai = rng.below(5) as usize;
+    w.indent = indents[ii];
+    w.attributes_indent = indents[ai];
+    let precs = [0u8, 1, 2, 3, 5, 8, 8, 8, 12, 13, 100, 255];
+    w.coordinates_precision = *rng.pick(&precs);
+    w.transforms_precision = *rng.pick(&precs);
+    let desc = format!(
+        "prefix={:?} preserve_text={} single_quote={} indent#{} attr_indent#{} cprec={} tprec={}",
+        w.id_prefix, w.preserve_text, w.use_single_quote, ii, ai, w.coordinates_precision, w.transforms_precision
+    );
+    (w, desc)
+}
+
+fn plain_decimal(tok: &str) -> bool {
+    let t = tok.strip_prefix('-').unwrap_or(tok);
+    let mut parts = t.splitn(2, '.');
+    let (a, b) = (parts.next().unwrap_or(""), parts.next());
+    !a.is_empty() && a.bytes().all(|c| c.is_ascii_digit()) && b.map(|b| !b.is_empty() && b.bytes().all(|c| c.is_ascii_digit())).unwrap_or(true)
+}
+
+fn number_list_ok(s: &str) -> bool {
+    s.split(|c: char| c == ' ' || c == ',').filter(|p| !p.is_empty()).all(plain_decimal)
+}
+
+pub fn check_written(text: &str, desc: &str, v: &mut Vec<Viol>) -> bool {
+    let doc = match usvg::roxmltree::Document::parse_with_options(text, usvg::roxmltree::ParsingOptions { allow_dtd: true, nodes_limit: u32::MAX }) {
+        Ok(d) => d,
+        Err(e) => {
+            let kind = format!("{:?}", e);
+            let kind = kind.split('(').next().unwrap_or("?").to_string();
+            let pos = e.pos();
+            let line = text.lines().nth(pos.row.saturating_sub(1) as usize).unwrap_or("");
+            let col = (pos.col as usize).saturating_sub(1).min(line.len());
+            let mut lo = col.saturating_sub(60);
+            while !line.is_char_boundary(lo) { lo -= 1; }
+            let mut hi = (col + 40).min(line.len());
+            while !line.is_char_boundary(hi) { hi += 1; }
+            v.push(Viol { sig: format!("C07:ill-formed:{}", kind), what: format!("[{}] {} near: {}", desc, e, &line[lo..hi]) });
+            return false;
+        }
+    };
+    let root = doc.root_element();
+    if root.tag_name().name() != "svg" || root.tag_name().namespace() != Some("http://www.w3.org/2000/svg") {
+        v.push(Viol { sig: "C07:root".into(), what: format!("[{}] root element {:?}", desc, root.tag_name()) });
+    }
+    let mut ids: std::collections::HashMap<&str, usize> = Default::default();
+    for n in doc.descendants().filter(|n| n.is_element()) {
+        if let Some(id) = n.attribute("id") {
+            *ids.entry(id).or_insert(0) += 1;
+        }
+    }
+    for n in doc.descendants().filter(|n| n.is_element()) {
+        let tag = n.tag_name().name();
+        for a in n.attributes() {
+            let (name, val) = (a.name(), a.value());
+            let mut refs: Vec<&str> = vec![];
+            let mut rest = val;
+            while let Some(i) = rest.find("url(#") {
+                let after = &rest[i + 5..];
+                // ids may contain ')' only in hostile input; the writer closes with the last ')'
+                let end = after.find(')').unwrap_or(after.len());
+                refs.push(&after[..end]);
+                rest = &after[end..];
+            }
+            if name == "href" && val.starts_with('#') {
+                refs.push(&val[1..]);
+            }
+            for r in refs {
+                match ids.get(r).copied().unwrap_or(0) {
+                    1 => {}
+                    0 => v.push(Viol { sig: format!("C07:dangling-reference:{}@{}", name, tag), what: format!("[{}] <{} {}=\"{}\"> refers to no element of the written text", desc, tag, name, val) }),
+                    k => v.push(Viol { sig: format!("C07:ambiguous-reference:{}@{}", name, tag), what: format!("[{}] <{} {}=\"{}\"> refers to {} elements with that id", desc, tag, name, val, k) }),
+                }
+            }
+            let numeric = NUMERIC_ATTRS.contains(&name) || matches!(name, "points" | "tableValues" | "kernelMatrix" | "values" | "order" | "targetX" | "targetY" | "numOctaves" | "radius" | "azimuth" | "elevation" | "z" | "pointsAtX" | "pointsAtY" | "pointsAtZ" | "limitingConeAngle" | "kernelUnitLength" | "startOffset" | "textLength" | "rotate");
+            if numeric && !(name == "values" && tag != "feColorMatrix") && !(name == "rotate" && !val.chars().next().map(|c| c.is_ascii_digit() || c == '-').unwrap_or(false)) {
+                if !number_list_ok(val) {
+                    v.push(Viol { sig: format!("C07:number:{}", name), what: format!("[{}] <{} {}=\"{}\">", desc, tag, name, &val[..val.len().min(100)]) });
+                }
+            }
+            if name == "transform" || name.ends_with("Transform") {
+                let inner = val.trim();
+                let ok = ["matrix(", "translate(", "scale("].iter().any(|p| inner.strip_prefix(p).and_then(|r| r.strip_suffix(')')).map(number_list_ok).unwrap_or(false));
+                if !ok {
+                    v.push(Viol { sig: "C07:number:transform".into(), what: format!("[{}] <{} {}=\"{}\">", desc, tag, name, &val[..val.len().min(100)]) });
+                }
+            }
+            if name == "d" && tag == "path" {
+                let ok = val.split(' ').filter(|t| !t.is_empty()).all(|t| matches!(t, "M" | "L" | "Q" | "C" | "Z") || plain_decimal(t));
+                if !ok {
+                    let bad = val.split(' ').find(|t| !t.is_empty() && !matches!(*t, "M" | "L" | "Q" | "C" | "Z") && !plain_decimal(t)).unwrap_or("");
+                    v.push(Viol { sig: "C07:number:path-data".into(), what: format!("[{}] path data token {:?}", desc, bad) });
+                }
+            }
+        }
+    }
+    true
+}
+
+pub fn check_c07(t: &usvg::Tree, data: &[u8], v: &mut Vec<Viol>) {
+    let h = crate::util::hash64(&String::from_utf8_lossy(data));
+    let mut variants = vec![(usvg::WriteOptions::default(), "default".to_string())];
+    for k in 0..3 {
+        variants.push(write_options(h.wrapping_add(k)));
+    }
+    let n0 = crate::jobs::count_nodes(t.root());
+    for (w, desc) in variants {
+        let text = match crate::pan::catch(|| t.to_string(&w)) {
+            Ok(s) => s,
+            Err(ps) => {
+                v.push(Viol { sig: format!("C07:writer-panic:{}", ps.site), what: format!("[{}] Tree::to_string panicked", desc) });
+                continue;
+            }
+        };
+        if !check_written(&text, &desc, v) {
+            continue;
+        }
+        let mut o = crate::corpus::opts_for(None);
+        o.fontdb = t.fontdb().clone();
+        match crate::pan::catch(|| usvg::Tree::from_str(&text, &o)) {
+            Ok(Ok(t2)) => {
+                let n2 = crate::jobs::count_nodes(t2.root());
+                let (s1, s2) = (t.size(), t2.size());
+                if (s1.width() - s2.width()).abs() > 1e-3 * s1.width().max(1.0) || (s1.height() - s2.height()).abs() > 1e-3 * s1.height().max(1.0) {
+                    v.push(Viol { sig: "C07:reparse-size".into(), what: format!("[{}] size {:?} became {:?}", desc, s1, s2) });
+                }
+                // "a tree of the same size": the canvas size above; the node count legitimately differs
+                // (text is written as outlines, groups are re-simplified) but content must not vanish
+                if (n2 == 0) != (n0 == 0) {
+                    v.push(Viol { sig: "C07:reparse-emptiness".into(), what: format!("[{}] {} nodes became {}", desc, n0, n2) });
+                }
+            }
+            Ok(Err(e)) => v.push(Viol { sig: "C07:reparse-rejected".into(), what: format!("[{}] usvg rejects its own output: {}", desc, e) }),
+            Err(ps) => v.push(Viol { sig: format!("C07:reparse-panic:{}", ps.site), what: format!("[{}] usvg panics on its own output", desc) }),
+        }
+    }
+}
+
 /// run all contracts of `prop` on a tree
 pub fn check(prop: &str, t: &usvg::Tree, data: &[u8]) -> Vec<Viol> {
     let mut v = vec![];
     match prop {
         "C04" => check_c04(t, &mut v),
         "C05" => check_c05(t, input_ids_unique(data), "", &mut v),
+        "C07" => check_c07(t, data, &mut v),
         _ => {}
     }
     v
